@@ -119,17 +119,20 @@ P("C06", "proof", "Lean 4 refinement theorems (Unix queries = StdSpec) + model/c
             "TP.C06.unix_strip_prefix_K1_witness"],
   rule=NONTRIV + "non-trivial = >= 2 components (unary) / true prefix relation (pairs)", design_ref="§5 C06")
 
-P("C07", "proof", "Lean 4 invariant-by-induction over operation histories (model vs StdBuf) + model/code and StdBuf/std correspondence",
-  "Proved in Lean for every starting buffer and every finite history of push / pop / set_file_name / clear: the std "
-  "buffer is the typed-path buffer or that buffer plus one separator (unix_history_refines with invariant I), hence "
-  "the two are component-equal throughout (I_comps_eq), every Boolean result agrees, and right after pushing a "
-  "non-empty path the buffers are byte-identical (unix_history_bytes). StdBuf (std's documented push rule; pop and "
-  "set_file_name as std defines them) is compared with a real std::path::PathBuf on the same histories on every run.",
-  "StdBuf's pop/set_file_name use the model's Unix parent/file_name queries (related to StdSpec by C09/C12 theorems "
-  "and to std by the StdBuf/std differential). extend / collect / join / with_file_name are repeated or cloned pushes: "
-  "checked by the oracle against std, not by a theorem. set_extension histories are covered under C13. Model=code and "
-  "StdBuf=std by differential testing.",
-  theorems=["TP.C07.unix_history_refines", "TP.C07.I_comps_eq", "TP.C07.unix_history_bytes", "TP.C07.step_preserves"],
+P("C07", "proof", "Lean 4 invariant-by-induction over operation histories (model vs StdBuf, incl. set_extension) + model/code and StdBuf/std correspondence",
+  "Proved in Lean for every starting buffer and every finite history of push / pop / set_file_name / clear / "
+  "set_extension: the std buffer is the typed-path buffer or that buffer plus one separator (unix_history_refines with "
+  "invariant I), hence the two are component-equal throughout (I_comps_eq), every Boolean result agrees, and right "
+  "after pushing a non-empty path — and after every successful set_extension — the buffers are byte-identical "
+  "(unix_history_bytes, setExtension_trailing_sep). StdBuf (std's documented push rule; pop, set_file_name and "
+  "set_extension as std defines them: truncate right after the file stem, append `.ext`) is compared with a real "
+  "std::path::PathBuf on the same histories on every run.",
+  "StdBuf's pop/set_file_name/set_extension use the model's Unix parent/file_name/file_stem queries (related to StdSpec "
+  "by C09/C12 theorems and to std by the StdBuf/std differential). extend / collect / join / with_file_name are repeated "
+  "or cloned pushes: checked by the oracle against std, not by a theorem. Extensions containing `/` are excluded (std "
+  "panics on them). Model=code and StdBuf=std by differential testing.",
+  theorems=["TP.C07.unix_history_refines", "TP.C07.I_comps_eq", "TP.C07.unix_history_bytes", "TP.C07.step_preserves",
+            "TP.C07.setExtension_trailing_sep"],
   rule="exhaustive histories of <= 2 ops over tiny arguments + seeded random histories; non-trivial = >= 2 ops; distinct by history", design_ref="§5 C07")
 
 P("C08", "proof", "Lean 4 theorems (model push = documented rule table, byte-exact) + model/code correspondence; component clause by oracle (known finding K3)",
@@ -249,8 +252,8 @@ P("C13", "proof", "Lean 4 byte-level theorem (cut at the end of the stem) + mode
   "characters next to every cut.",
   theorems=["TP.C13.set_ext_bytes", "TP.C13.set_ext_cut_boundary", "TP.C13.set_ext_false", "TP.C13.set_ext_true_iff", "TP.C13.set_ext_total",
             "TP.C13.set_ext_tokens", "TP.C12b.unix_set_ext_comps", "TP.C12b.unix_set_ext_name_parent", "TP.C14.set_extension_valid",
-            "TP.C13b.win_set_ext_comps", "TP.C13b.win_set_ext_name_parent", "TP.C13b.set_ext_tokens2"],
-  modules=["TypedPathVerif.Props.C12b", "TypedPathVerif.Props.C14", "TypedPathVerif.Props.C13b"],
+            "TP.C13b.win_set_ext_comps", "TP.C13b.win_set_ext_name_parent", "TP.C13b.set_ext_tokens2", "TP.C07.setExtension_trailing_sep", "TP.C07.step_preserves"],
+  modules=["TypedPathVerif.Props.C12b", "TypedPathVerif.Props.C14", "TypedPathVerif.Props.C13b", "TypedPathVerif.Props.C07"],
   rule=NONTRIV + "(path, extension) pairs; non-trivial = file name followed by separators or `.`", design_ref="§5 C13")
 
 P("C14", "proof", "Lean 4 theorems (UTF-8 validity is preserved by every byte-level operation and mutation history) + UTF-8 family vs byte family transcripts (delegation) + model/code correspondence",
